@@ -285,3 +285,193 @@ pub fn run_load(trace: &Trace) -> Outcome {
         digest,
     }
 }
+
+// ------------------------------------------------------------------ C14, loader leg
+
+type Img = (i32, i32, i32, i32, u64);
+
+/// Loads `bytes` as an ANSI file with the decode threads released according to `sched` (one item per
+/// virtual sleep of the loader's drain loop; -1 = idle sleep; when the list is exhausted everything that
+/// is still parked is released). Returns the image layers in layer order, or the error / panic class.
+fn load_images(name: &str, bytes: &[u8], sched: &[i64], fuel: u64, clock_ms: i64) -> Result<Vec<Img>, String> {
+    hooks::gate_activate(fuel);
+    hooks::clock_install(clock_ms);
+    let q: Arc<Mutex<std::collections::VecDeque<i64>>> = Arc::new(Mutex::new(sched.iter().copied().collect()));
+    let q2 = q.clone();
+    hooks::set_on_sleep(Some(Box::new(move |_d| {
+        let item = q2.lock().map(|mut q| q.pop_front()).unwrap_or(None);
+        let n = hooks::gate_tickets();
+        match item {
+            Some(t) if t >= 0 => {
+                let t = t as usize;
+                if t < n && hooks::gate_release(t) {
+                    let _ = hooks::gate_wait_done(t, Duration::from_secs(20));
+                }
+            }
+            Some(_) => {}
+            None => {
+                for t in 0..n {
+                    if hooks::gate_release(t) {
+                        let _ = hooks::gate_wait_done(t, Duration::from_secs(20));
+                    }
+                }
+            }
+        }
+        let t0 = std::time::Instant::now();
+        while t0.elapsed() < Duration::from_micros(300) {
+            std::thread::yield_now();
+        }
+    })));
+    hooks::set_fuel(fuel, crate::term::DEFAULT_MAX_DEPTH);
+    let r = catch_unwind(AssertUnwindSafe(|| Buffer::from_bytes(Path::new(name), true, bytes)));
+    hooks::set_fuel(hooks::UNLIMITED, u32::MAX);
+    for t in 0..hooks::gate_tickets() {
+        if hooks::gate_release(t) {
+            let _ = hooks::gate_wait_done(t, Duration::from_secs(20));
+        }
+    }
+    hooks::set_on_sleep(None);
+    hooks::gate_deactivate();
+    hooks::clock_remove();
+    match r {
+        Err(_) => {
+            let recs = guard::take_panics();
+            Err(format!("panic:{}", recs.first().map(|r| r.function.clone()).unwrap_or_default()))
+        }
+        Ok(Err(_)) => {
+            guard::take_panics();
+            Err("err".into())
+        }
+        Ok(Ok(b)) => {
+            guard::take_panics();
+            let mut v = Vec::new();
+            for l in b.layers.iter().skip(1) {
+                for s in &l.sixels {
+                    let o = l.get_offset();
+                    v.push((o.x + s.position.x, o.y + s.position.y, s.get_width(), s.get_height(), crate::rng::fnv_bytes(&s.picture_data)));
+                }
+            }
+            Ok(v)
+        }
+    }
+}
+
+/// (position, payload) of every sixel DCS in a file written by `gen_sixel::gen_c14_load`.
+fn scan_sixels(bytes: &[u8]) -> Vec<(icy_engine::Position, String)> {
+    let mut out = Vec::new();
+    let mut pos = icy_engine::Position::default();
+    let mut i = 0;
+    while i < bytes.len() {
+        if bytes[i] == 0x1b && bytes.get(i + 1) == Some(&b'[') {
+            // CSI r;c H
+            let mut j = i + 2;
+            let mut nums = vec![0i32];
+            while j < bytes.len() && (bytes[j].is_ascii_digit() || bytes[j] == b';') {
+                if bytes[j] == b';' {
+                    nums.push(0);
+                } else if let Some(l) = nums.last_mut() {
+                    *l = l.saturating_mul(10).saturating_add(i32::from(bytes[j] - b'0'));
+                }
+                j += 1;
+            }
+            if bytes.get(j) == Some(&b'H') && nums.len() == 2 {
+                pos = icy_engine::Position::new((nums[1] - 1).max(0), (nums[0] - 1).max(0));
+            }
+            i = j + 1;
+        } else if bytes[i] == 0x1b && bytes.get(i + 1) == Some(&b'P') {
+            let mut j = i + 2;
+            while j + 1 < bytes.len() && !(bytes[j] == 0x1b && bytes[j + 1] == b'\\') {
+                j += 1;
+            }
+            let dcs: String = bytes[i + 2..j.min(bytes.len())].iter().map(|b| *b as char).collect();
+            if let Some(p) = crate::monitors::sixel_payload(&dcs) {
+                out.push((pos, p.to_string()));
+            }
+            i = j + 2;
+        } else {
+            i += 1;
+        }
+    }
+    out
+}
+
+pub fn run_c14_load(trace: &Trace) -> Outcome {
+    let mut stats = RunStats::default();
+    let mut violation = None;
+    let mut digest = 99u64;
+    guard::phase(1);
+    guard::take_panics();
+    for (ei, ev) in trace.events.iter().enumerate() {
+        stats.events += 1;
+        let Ev::Load { name, hex, .. } = ev else { continue };
+        let bytes = from_hex(hex);
+        stats.bytes += bytes.len() as u64;
+        let fuel = crate::term::DEFAULT_DECODE_FUEL;
+        guard::mem_begin(512 << 20, 128 << 20);
+        let sixels = scan_sixels(&bytes);
+        let k = sixels.len();
+        // reference: arrival order + shadowing over the reference decodes
+        let refs: Vec<crate::monitors::RefImage> = sixels.iter().map(|(p, s)| crate::monitors::ref_decode(*p, s)).collect();
+        let expect: Result<Vec<Img>, String> = if refs.iter().any(|r| !r.ok) {
+            Err("err".into())
+        } else {
+            let mut list: Vec<Img> = Vec::new();
+            for r in &refs {
+                let (nx0, ny0) = (i64::from(r.x) * 8, i64::from(r.y) * 16);
+                let (nx1, ny1) = (nx0 + i64::from(r.w), ny0 + i64::from(r.h));
+                list.retain(|o| {
+                    let (ox0, oy0) = (i64::from(o.0) * 8, i64::from(o.1) * 16);
+                    !(nx0 <= ox0 && ny0 <= oy0 && ox0 + i64::from(o.2) <= nx1 && oy0 + i64::from(o.3) <= ny1)
+                });
+                list.push((r.x, r.y, r.w, r.h, r.hash));
+            }
+            // the loader turns the images into layers from the newest to the oldest
+            list.reverse();
+            Ok(list)
+        };
+        let in_order: Vec<i64> = (0..k as i64).collect();
+        let runs: [(&str, Vec<i64>); 3] = [("trace schedule", trace.cfg.doc.clone()), ("all finished before the first poll", vec![]), ("one per poll in arrival order", in_order)];
+        for (label, sched) in &runs {
+            let got = load_images(name, &bytes, sched, fuel, trace.cfg.clock_ms);
+            stats.count("loader_runs");
+            if let Ok(v) = &got {
+                digest = digest.wrapping_mul(31).wrapping_add(v.len() as u64);
+                for s in v {
+                    if let Some(vi) = crate::monitors::check_rect("C14", "image layer after loading", s.2, s.3, (i64::from(s.2) * i64::from(s.3) * 4).max(0) as usize, ei) {
+                        let _ = vi;
+                    }
+                }
+            }
+            if got != expect {
+                let show = |r: &Result<Vec<Img>, String>| match r {
+                    Ok(v) => format!("{} images [{}]", v.len(), v.iter().map(|i| format!("({},{} {}x{} #{:08x})", i.0, i.1, i.2, i.3, i.4 as u32)).collect::<Vec<_>>().join(" ")),
+                    Err(e) => format!("error ({e})"),
+                };
+                violation = Some(crate::monitors::inv(
+                    "C14",
+                    "loader_images",
+                    format!("loading the file with {label} ({sched:?}) gives {} but arrival order and shadowing give {}", show(&got), show(&expect)),
+                    ei,
+                ));
+                break;
+            }
+        }
+        guard::mem_end();
+        if k >= 2 {
+            stats.count("probe_loader_two_or_more_images");
+        }
+        if violation.is_some() {
+            break;
+        }
+    }
+    let (_n, ms) = (0, 0);
+    stats.sim_ms += ms;
+    stats.sig("schedule", crate::rng::fnv(&format!("load{:?}", trace.cfg.doc)));
+    guard::phase(0);
+    Outcome {
+        ended: if violation.is_some() { "violation".into() } else { "completed".into() },
+        violation,
+        stats,
+        digest,
+    }
+}
